@@ -81,3 +81,22 @@ package perio
 // Goroutine confinement (C17): the registration table of the periodic-report server belongs to its own goroutine;
 // producers (Gtp5g.CreateURR / RemoveURR on the event loop, the ticker goroutines) reach it through evtCh only.
 //@ confined serves C17 root perio.Server.Serve init perio.OpenServer = perio.Server.perioList perio.PERIOGroup.urrids perio.PERIOGroup.period perio.PERIOGroup.ticker
+
+// The asynchronous API (C15, C03): a request is "made" by queuing exactly one event with the given SEID, URR id (and
+// period) for the server's goroutine; the ghost set PERIOREQ of requested registrations changes here and nowhere else.
+//@ func (s *Server) AddPeriodReportTimer(lSeid uint64, urrid uint32, period time.Duration)
+//@   requires s != nil && s.evtCh != nil && !closed(s.evtCh)
+//@   ensures [queued] chtail(s.evtCh) == old(chtail(s.evtCh)) + 1 && chat(s.evtCh, old(chtail(s.evtCh))).eType == TYPE_PERIO_ADD &&
+//@                    chat(s.evtCh, old(chtail(s.evtCh))).lSeid == lSeid && chat(s.evtCh, old(chtail(s.evtCh))).urrid == urrid && chat(s.evtCh, old(chtail(s.evtCh))).period == period
+//@   ensures [reg]    PERIOREQ == add(old(PERIOREQ), RuleKey(lSeid, 4, uint64(urrid)))
+//@   modifies chanstate(s.evtCh), PERIOREQ
+//@   exit set PERIOREQ := add(PERIOREQ, RuleKey(lSeid, 4, uint64(urrid)))
+//@   serves C15 C03
+//@ func (s *Server) DelPeriodReportTimer(lSeid uint64, urrid uint32)
+//@   requires s != nil && s.evtCh != nil && !closed(s.evtCh)
+//@   ensures [queued] chtail(s.evtCh) == old(chtail(s.evtCh)) + 1 && chat(s.evtCh, old(chtail(s.evtCh))).eType == TYPE_PERIO_DEL &&
+//@                    chat(s.evtCh, old(chtail(s.evtCh))).lSeid == lSeid && chat(s.evtCh, old(chtail(s.evtCh))).urrid == urrid
+//@   ensures [unreg]  PERIOREQ == remove(old(PERIOREQ), RuleKey(lSeid, 4, uint64(urrid)))
+//@   modifies chanstate(s.evtCh), PERIOREQ
+//@   exit set PERIOREQ := remove(PERIOREQ, RuleKey(lSeid, 4, uint64(urrid)))
+//@   serves C15 C03
